@@ -181,8 +181,8 @@ M('c04-copy-swapped', 'C04', 'matching.py',
   "        return TypeMatchError(self.args[1], self.args[2])",
   "TypeMatchError.__copy__ swaps actual and expected")
 M('c04-wrap-bases', 'C04', 'core.py',
-  "        bases = (GlomError,) if issubclass(GlomError, exc_type) else (exc_type, GlomError)",
-  "        bases = (GlomError,) if issubclass(exc_type, Exception) else (exc_type, GlomError)",
+  "        bases = (GlomError,) if issubclass(GlomError, exc_type) else (GlomError, exc_type)",
+  "        bases = (GlomError,) if issubclass(exc_type, Exception) else (GlomError, exc_type)",
   "wrapped exceptions lose their original class")
 M('c04-wrap-reraise', 'C04', 'core.py',
   "        except Exception:  # maybe exception can't be re-created\n            return exc",
@@ -419,12 +419,12 @@ M('c10-invert-and', 'C10', 'matching.py',
 
 # --------------------------------------------------------------------------- C11
 M('c11-write-first', 'C11', 'mutation.py',
-  "            remaining_path = self._orig_path[pae.part_idx + 1:]\n            val = scope[glom](self.missing(), Assign(remaining_path, val, missing=self.missing), scope)\n\n            op, arg = self._orig_path.items()[pae.part_idx]\n            path = self._orig_path[:pae.part_idx]\n            dest = scope[glom](dest_target, path, scope)",
-  "            op, arg = self._orig_path.items()[pae.part_idx]\n            path = self._orig_path[:pae.part_idx]\n            dest = scope[glom](dest_target, path, scope)\n            _assign_op(dest=dest, op=op, arg=arg, val=self.missing(), path=path, scope=scope)\n            remaining_path = self._orig_path[pae.part_idx + 1:]\n            val = scope[glom](self.missing(), Assign(remaining_path, val, missing=self.missing), scope)",
+  "            remaining_path = self._orig_path[pae.part_idx + 1:]\n            val = scope[glom](self.missing(), Assign(remaining_path, Val(val), missing=self.missing), scope)\n\n            op, arg = self._orig_path.items()[pae.part_idx]\n            path = self._orig_path[:pae.part_idx]\n            dest = scope[glom](dest_target, path, scope)",
+  "            op, arg = self._orig_path.items()[pae.part_idx]\n            path = self._orig_path[:pae.part_idx]\n            dest = scope[glom](dest_target, path, scope)\n            _assign_op(dest=dest, op=op, arg=arg, val=self.missing(), path=path, scope=scope)\n            remaining_path = self._orig_path[pae.part_idx + 1:]\n            val = scope[glom](self.missing(), Assign(remaining_path, Val(val), missing=self.missing), scope)",
   "the missing container is attached before its tail is built")
 M('c11-tail-in-target', 'C11', 'mutation.py',
-  "            val = scope[glom](self.missing(), Assign(remaining_path, val, missing=self.missing), scope)",
-  "            val = scope[glom](dest_target, Assign(remaining_path, val, missing=self.missing), scope)",
+  "            val = scope[glom](self.missing(), Assign(remaining_path, Val(val), missing=self.missing), scope)",
+  "            val = scope[glom](dest_target, Assign(remaining_path, Val(val), missing=self.missing), scope)",
   "the tail is assigned into the target instead of a fresh factory object")
 M('c11-tail-off', 'C11', 'mutation.py',
   "            remaining_path = self._orig_path[pae.part_idx + 1:]",
@@ -826,3 +826,29 @@ M('c08-revert-argmode-finally', ['C08'], 'core.py',
   "    try:\n        result = scope[glom](target, arg, scope)\n    finally:\n        # also when the argument fails: the frame may live on (e.g. an entry dropped by '*')\n        scope[MIN_MODE] = mode\n    return result",
   "    result = scope[glom](target, arg, scope)\n    scope[MIN_MODE] = mode\n    return result",
   "revert of the repair: argument mode stays installed when the argument raises")
+
+# reverts of the repairs made after seed round 6 (5.1 o-t)
+M('c05-revert-wrap-bases-order', ['C05'], 'core.py',
+  "        bases = (GlomError,) if issubclass(GlomError, exc_type) else (GlomError, exc_type)",
+  "        bases = (GlomError,) if issubclass(GlomError, exc_type) else (exc_type, GlomError)",
+  "revert of the repair: a wrapped class with its own __str__ prints without the trace")
+M('c13-revert-miss-after-memo', ['C13'], 'core.py',
+  "            self._type_cache[cache_key] = ret\n        ret = self._type_cache[cache_key]\n        if ret is False and raise_exc:\n            # also when the miss was memoised by an earlier raise_exc=False lookup\n            raise UnregisteredTarget(op, obj_type, type_map=self.get_type_map(op), path=path)\n        return ret",
+  "            if ret is False and raise_exc:\n                raise UnregisteredTarget(op, obj_type, type_map=type_map, path=path)\n\n            self._type_cache[cache_key] = ret\n        return self._type_cache[cache_key]",
+  "revert of the repair: a memoised False is returned to a caller that asked for an exception")
+M('c11-revert-backfill-literal', ['C11'], 'mutation.py',
+  "Assign(remaining_path, Val(val), missing=self.missing)",
+  "Assign(remaining_path, val, missing=self.missing)",
+  "revert of the repair: the back-fill evaluates the value a second time")
+M('c10-revert-check-default-raw', ['C10'], 'matching.py',
+  "                        if self.default is not RAISE:\n                            return arg_val(target, self.default, scope)",
+  "                        if self.default is not RAISE:\n                            return self.default",
+  "revert of the repair: the validate branch returns the stored default object")
+M('c10-revert-rand-alias', ['C10'], 'matching.py',
+  "    def __rand__(self, other):\n        return And(other, self)\n\n    def __or__(self, other):\n        return Or(self, other)\n\n    def __invert__(self):\n        return Not(self)\n\n    def glomit(self, target, scope):\n        lhs, op, rhs = self.lhs, self.op, self.rhs",
+  "    __rand__ = __and__\n\n    def __or__(self, other):\n        return Or(self, other)\n\n    def __invert__(self):\n        return Not(self)\n\n    def glomit(self, target, scope):\n        lhs, op, rhs = self.lhs, self.op, self.rhs",
+  "revert of the repair: the reflected & swaps its operands")
+M('c02-revert-call-operand-twice', ['C02'], 'core.py',
+  "        if op != '(':  # call arguments are evaluated (once) by the Call spec below\n            arg = arg_val(target, arg, scope)",
+  "        arg = arg_val(target, arg, scope)",
+  "revert of the repair: the operand of a call step is evaluated before Call evaluates it again")
